@@ -48,6 +48,9 @@ BIG = [("big%d" % i, (b"ACGTNNNN" * 40), 60) for i in range(30)]  # cache files 
 
 
 def content_records(cid):
+    if cid.startswith("MANY"):
+        # many short records (a scaffold-level assembly): every 97th holds an N run, widths vary
+        return [("q%d" % i, b"ACNNGT" if i % 97 == 0 else b"ACG"[: 1 + i % 3], 1 + i % 2) for i in range(1, int(cid[4:]) + 1)]
     return BIG if cid == "BIG" else CONTENTS[cid]
 
 
@@ -210,6 +213,7 @@ class C15(Check):
         out.append(("e2big", 8192))
         out.append(("e2link", 16))
         out.append(("cliout",))
+        out.append(("many",))
         for first in range(7):  # (a history cannot begin with load-constructed)
             out.append(("e2p", 5 if tier == "quick" else 6, first))
         pres = ("none", "stale", "valid", "fai-only")
@@ -231,6 +235,42 @@ class C15(Check):
         if tier == "thorough":
             out.append(("e3", 3, "none", 64, 0))
         return out
+
+    # ------------------------------------------------------------------ many records
+    MANY_N = (999, 1000, 1001, 1024, 2000, 2001, 2049)
+
+    def many(self, ctx, only=None):
+        """a FASTA of n short records, n on and around 1000 / 1024 / 2000: index it (both cache files written), load again from the cache"""
+        for n in self.MANY_N:
+            if only is not None and n != only:
+                continue
+            cid = f"MANY{n}"
+            case = ["many", n]
+            ctx.cur = case
+            runner = SeqRunner(8192, index_buffer=1 << 20)
+            v0 = VFS()
+            v0.put(FA, reference(cid)[0], mtime=1)
+            snap, now = v0.snapshot(), 5
+            for step in ("index", "load-from-cache", "load-from-cache-again"):
+                ctx.evaluations += 1
+                ctx.states += 1
+                ctx.transitions += 1
+                ctx.nontrivial += 1
+                res, points, snap, _log, _foreign = runner.load(snap, now)
+                now += 5
+                if res[0] != "ok":
+                    ctx.violation(f"many-records-load-{res[0]}", case, f"{step}: {res!r}")
+                    break
+                bad = judge(cid, res)
+                if bad:
+                    _, exp, _rows = reference(cid)
+                    missing = sorted(set(exp) - set(res[1] or ()))[:5]
+                    ctx.violation(bad + "/many-records", case, f"{step}: {len(res[1] or ())} of {len(exp)} records, first missing {missing!r}")
+                    break
+                if step != "index" and any(op.startswith("write") and path in (FAI, AGP) for op, path in points):
+                    ctx.count("many_cache_rewritten")
+            ctx.outcome(h64((n, res[0])))
+        ctx.sample({"many": list(self.MANY_N), "record": ">q97 ACNNGT"})
 
     # ------------------------------------------------------------------ E2
     def e2(self, bufsize, ctx, contents=("A", "B", "C"), replay_hist=None, max_states=None, link=False):
@@ -598,6 +638,8 @@ class C15(Check):
             self.e2(shard[1], ctx)
         elif kind == "cliout":
             self.cli_outputs(ctx)
+        elif kind == "many":
+            self.many(ctx)
         elif kind == "e2link":
             self.e2(shard[1], ctx, contents=("A", "B") if len(shard) < 3 else tuple(shard[2]), link=True)
         elif kind == "e2p":
@@ -613,6 +655,8 @@ class C15(Check):
     def replay(self, case, ctx):
         if case[0] == "cliout":
             self.cli_outputs(ctx, only=case[:3])
+        elif case[0] == "many":
+            self.many(ctx, only=case[1])
         elif case[0] == "e2p":
             self.e2p(len(case[1]), 0, ctx, replay_hist=case[1])
         elif case[0] in ("e2", "e2link"):
@@ -791,3 +835,4 @@ class _Exec:
 
 
 CHECK = C15()
+CHECK.rule += ' Many records: FASTA files of 999 / 1000 / 1001 / 1024 / 2000 / 2001 / 2049 short records are indexed and then loaded twice from the cache files; every load must return the reference index and assembly.'
